@@ -317,105 +317,93 @@ fn c34_req_new_kf_u16_wrap() {
     assert!(r.is_none(), "a request beyond the 512-byte filter is never constructed");
 }
 
-/// No false negatives: after add_id(id) the filter contains id, also after merging arbitrary
-/// other filters (add / union); add_id sets exactly the ten addressed bits; contains_id is
-/// exactly "all ten addressed bits are set".
+/// The ten 12-bit values of a server id (< 4096 each; reachable ids are also sorted and distinct,
+/// which the filter does not rely on).
+fn any_id() -> [u16; 10] {
+    let raw: [u16; 10] = kani::any();
+    kani::assume(raw[0] < 4096 && raw[1] < 4096 && raw[2] < 4096 && raw[3] < 4096 && raw[4] < 4096);
+    kani::assume(raw[5] < 4096 && raw[6] < 4096 && raw[7] < 4096 && raw[8] < 4096 && raw[9] < 4096);
+    raw
+}
+/// Byte `idx` of a filter after setting the bits of `id` (Bloom filter definition).
+fn with_bits(byte: u8, idx: usize, id: &[u16; 10]) -> u8 {
+    let mut b = byte;
+    macro_rules! bit { ($($k:expr),*) => { $( if (id[$k] / 8) as usize == idx { b |= 1u8 << (id[$k] % 8); } )* } }
+    bit!(0, 1, 2, 3, 4, 5, 6, 7, 8, 9);
+    b
+}
+
+/// No false negatives: after add_id(id) an arbitrary filter contains id; add_id sets exactly the
+/// ten addressed bits (checked at an arbitrary byte index).
 #[kani::proof]
-#[kani::unwind(520)]
-fn c34_member() {
+#[kani::unwind(12)]
+fn c34_member_add() {
     let f0: [u8; N] = kani::any();
-    let other: [u8; N] = kani::any();
-    let id_raw: [u16; 10] = kani::any();
-    let probe_raw: [u16; 10] = kani::any();
+    let id_raw = any_id();
     let idx: usize = kani::any();
     kani::assume(idx < N);
-    let mut j = 0;
-    while j < 10 {
-        kani::assume(id_raw[j] < 4096 && probe_raw[j] < 4096);
-        j += 1;
-    }
     let id = sh::server_id_from_raw(id_raw);
-    let probe = sh::server_id_from_raw(probe_raw);
     let mut f = sh::bloom_from_bytes(f0);
-
-    // contains_id == all addressed bits set (definition of Bloom membership)
-    let mut all = true;
-    let mut j = 0;
-    while j < 10 {
-        let bit = probe_raw[j] as usize;
-        if (f0[bit / 8] >> (bit % 8)) & 1 == 0 {
-            all = false;
-        }
-        j += 1;
-    }
-    assert!(f.contains_id(&probe) == all, "membership test reads exactly the ten addressed bits");
-
     f.add_id(&id);
     assert!(f.contains_id(&id), "no false negative right after insertion");
-    // exactly the addressed bits were set
-    let after: [u8; N] = *f.as_bytes();
-    let mut want = f0;
-    let mut j = 0;
-    while j < 10 {
-        let bit = id_raw[j] as usize;
-        want[bit / 8] |= 1u8 << (bit % 8);
-        j += 1;
-    }
-    assert!(after[idx] == want[idx], "add_id sets the ten addressed bits and nothing else (arbitrary index)");
+    assert!(f.as_bytes()[idx] == with_bits(f0[idx], idx, &id_raw), "add_id sets the ten addressed bits and nothing else (arbitrary index)");
+    kani::cover!(id_raw[0] == 4095 && id_raw[9] == 0 && idx == 511, "extreme bit positions");
+    kani::cover!(f0[idx] == 0 && f.as_bytes()[idx] == 0x81, "two bits in one byte");
+}
 
-    // merging other filters never removes a member
+/// Merging arbitrary other filters never removes a member: for an arbitrary filter that contains
+/// id (constructed: arbitrary bytes + the bits of id), add(other) and union keep id; add is the
+/// bytewise OR (arbitrary index).
+#[kani::proof]
+#[kani::unwind(520)]
+fn c34_member_merge() {
+    let f0: [u8; N] = kani::any();
+    let other: [u8; N] = kani::any();
+    let id_raw = any_id();
+    let idx: usize = kani::any();
+    kani::assume(idx < N);
+    let id = sh::server_id_from_raw(id_raw);
+    let mut f = sh::bloom_from_bytes(f0);
+    f.add_id(&id);
+    let before = f.as_bytes()[idx];
     let o = sh::bloom_from_bytes(other);
     f.add(&o);
     assert!(f.contains_id(&id), "no false negative after add(other)");
-    let merged: [u8; N] = *f.as_bytes();
-    assert!(merged[idx] == (after[idx] | other[idx]), "add is the bytewise union (arbitrary index)");
-    let fs = [sh::bloom_from_bytes(after), o];
-    let u = BloomFilter::union(fs.iter());
-    assert!(u.contains_id(&id), "no false negative in a union");
-    assert!(u == f, "union == repeated add");
-    // a previously contained id stays contained as well
-    if all {
-        assert!(f.contains_id(&probe), "older members survive insertions and merges");
-    }
-    kani::cover!(all, "probe already present");
-    kani::cover!(!all, "probe absent");
-    kani::cover!(id_raw[0] == 4095 && id_raw[9] == 0, "extreme bit positions");
+    assert!(f.as_bytes()[idx] == (before | other[idx]), "add is the bytewise union (arbitrary index)");
+    kani::cover!(other[idx] == 0xF0 && before == 0x0F, "disjoint bits merged");
 }
-
-/// Empty filter has no members; a fresh filter with one id contains another id iff every bit of
-/// the other id is one of the first id's bits.
 #[kani::proof]
 #[kani::unwind(520)]
-fn c34_member_empty() {
-    let id_raw: [u16; 10] = kani::any();
-    let probe_raw: [u16; 10] = kani::any();
-    let mut j = 0;
-    while j < 10 {
-        kani::assume(id_raw[j] < 4096 && probe_raw[j] < 4096);
-        j += 1;
-    }
+fn c34_member_union() {
+    let f0: [u8; N] = kani::any();
+    let other: [u8; N] = kani::any();
+    let id_raw = any_id();
+    let idx: usize = kani::any();
+    kani::assume(idx < N);
     let id = sh::server_id_from_raw(id_raw);
-    let probe = sh::server_id_from_raw(probe_raw);
-    let mut f = BloomFilter::new();
-    assert!(!f.contains_id(&probe), "empty filter has no members");
+    let mut f = sh::bloom_from_bytes(f0);
     f.add_id(&id);
-    let mut subset = true;
-    let mut j = 0;
-    while j < 10 {
-        let mut found = false;
-        let mut l = 0;
-        while l < 10 {
-            if id_raw[l] == probe_raw[j] {
-                found = true;
-            }
-            l += 1;
-        }
-        if !found {
-            subset = false;
-        }
-        j += 1;
-    }
-    assert!(f.contains_id(&probe) == subset, "single-id filter: member iff bits are a subset");
-    kani::cover!(subset, "same bit set");
-    kani::cover!(!subset, "different id not reported");
+    let before = f.as_bytes()[idx];
+    let fs = [f, sh::bloom_from_bytes(other)];
+    let u = BloomFilter::union(fs.iter());
+    assert!(u.contains_id(&id), "no false negative in a union");
+    assert!(u.as_bytes()[idx] == (before | other[idx]), "union is the bytewise OR (arbitrary index)");
+    kani::cover!(u.as_bytes()[idx] == 0xFF, "reached");
+}
+
+/// contains_id is exactly "all ten addressed bits are set"; the empty filter has no members.
+#[kani::proof]
+#[kani::unwind(12)]
+fn c34_member_def() {
+    let f0: [u8; N] = kani::any();
+    let probe_raw = any_id();
+    let probe = sh::server_id_from_raw(probe_raw);
+    let f = sh::bloom_from_bytes(f0);
+    let mut all = true;
+    macro_rules! bit { ($($k:expr),*) => { $( if (f0[(probe_raw[$k] / 8) as usize] >> (probe_raw[$k] % 8)) & 1 == 0 { all = false; } )* } }
+    bit!(0, 1, 2, 3, 4, 5, 6, 7, 8, 9);
+    assert!(f.contains_id(&probe) == all, "membership test reads exactly the ten addressed bits");
+    assert!(!BloomFilter::new().contains_id(&probe), "empty filter has no members");
+    kani::cover!(all, "member");
+    kani::cover!(!all, "not a member");
 }
